@@ -1,11 +1,20 @@
 #!/usr/bin/env python3
-"""MANIFEST.setup_cmd: regenerate Gen from the repository, build the whole Lean library and the driver."""
-import os, subprocess, sys
+"""MANIFEST.setup_cmd: regenerate Gen from the repository, build the driver and every property
+module of the Lean library.  A property module that does not build is reported here and again (as
+"no longer shown") by its own check; setup itself only fails when the tool chain is unusable."""
+import glob, os, subprocess, sys
 sys.path.insert(0, os.path.dirname(os.path.abspath(__file__)))
 import extract, vlib, mkdriver
 mkdriver.run()
 broken = extract.run(vlib.SRC, os.path.join(vlib.LEAN, 'QsmtpModel', 'Gen'))
 for b in broken:
     print('extract: BROKEN', b)
-r = subprocess.run(['lake', 'build'], cwd=vlib.LEAN)
-sys.exit(r.returncode)
+r = subprocess.run(['lake', 'build', 'qsdrv'], cwd=vlib.LEAN)
+rc = r.returncode
+props = sorted(os.path.basename(f)[:-5] for f in glob.glob(os.path.join(vlib.LEAN, 'QsmtpModel', 'Props', 'C*.lean')))
+r = subprocess.run(['lake', 'build'] + ['QsmtpModel.Props.' + p for p in props], cwd=vlib.LEAN)
+if r.returncode != 0:
+    for p in props:
+        q = subprocess.run(['lake', 'build', 'QsmtpModel.Props.' + p], cwd=vlib.LEAN, stdout=subprocess.DEVNULL, stderr=subprocess.DEVNULL)
+        print('Props.%s: %s' % (p, 'ok' if q.returncode == 0 else 'DOES NOT BUILD'))
+sys.exit(rc)
